@@ -1093,6 +1093,11 @@ func (c *Conn) Read(b []byte) (int, error) {
 		if err := c.readRecord(); err != nil {
 			return 0, err
 		}
+		if c.hand.Len() > 0 {
+			// TLCP 不支持重协商：握手完成后收到的握手消息一律拒绝，
+			// 否则对端可以让这些数据在 c.hand 中无限累积。
+			return 0, c.in.setErrorLocked(c.sendAlert(alertNoRenegotiation))
+		}
 	}
 	n, _ := c.input.Read(b)
 
